@@ -105,6 +105,23 @@ def _stub_shape(g, o):
                     if txt(e.elt) == vv:
                         o.violated(fn, g2.iter, f"vertex v is repeated `{txt(g2.iter)}` times instead of its degree {dd}")
                         return
+            # the vertex id is the POSITION in the column of the joint degree sequence: an enumerate over a filtered, sorted or
+            # sliced copy of the column numbers the survivors 0, 1, 2, .. instead (ranks, not vertex ids)
+            for en in [n_ for n_ in ast.walk(e) if isinstance(n_, ast.Call) and txt(n_.func) == "enumerate" and n_.args]:
+                src = en.args[0]
+                derived = None
+                if isinstance(src, (ast.GeneratorExp, ast.ListComp)) and len(src.generators) == 1 and txt(src.generators[0].iter) == col and src.generators[0].ifs:
+                    derived = f"the entries of the column that pass `{txt(src.generators[0].ifs[0])}`"
+                elif isinstance(src, ast.Call) and txt(src.func) == "filter" and len(src.args) == 2 and txt(src.args[1]) == col:
+                    derived = f"the entries of the column that pass `{txt(src.args[0])}`"
+                elif isinstance(src, ast.Call) and txt(src.func) in ("sorted", "reversed", "set") and src.args and txt(src.args[0]) == col:
+                    derived = f"`{txt(src)}`"
+                elif isinstance(src, ast.Subscript) and txt(src.value) == col and isinstance(src.slice, ast.Slice) and (src.slice.lower is not None or src.slice.step is not None):
+                    derived = f"the slice `{txt(src)}`"
+                if derived is not None:
+                    o.violated(fn, en, f"vertex ids are taken from enumerate over {derived}: a vertex is numbered by its rank among those entries, not by its position in the joint degree "
+                                       "sequence - stubs are credited to the wrong vertices", shape_free=True)
+                    return
             o.undecided("nested stub construction not recognised", fn, v)
             return
     o.undecided("stub construction not recognised", fn, v)
@@ -191,12 +208,17 @@ def run(ctx):
             raise AnalysisError("chunk loop not found")
         cl = chunk_loops[0]
         call = cl.iter
-        if call.keywords:
-            kws = ", ".join(f"{k.arg}={txt(k.value)}" for k in call.keywords)
-            o.violated(fn, call, f"grouper(.., {kws}): a short tail is dropped / padded with a fill value instead of being handed to the builder")
+        if call.keywords and not all(k.arg in ("truncate", "fillvalue") for k in call.keywords):
+            o.undecided("grouper called with unexpected keyword arguments", fn, call)
         elif len(call.args) != 2:
             o.undecided("grouper called with unexpected arguments", fn, call)
         else:
+            if call.keywords:
+                # truncate= / fillvalue= only change what happens to a SHORT last group, and C01 speaks about sequences that
+                # satisfy the handshake condition: there every stub list is a whole number of groups and no short group exists
+                # (confirmed by a differential run of both variants on handshake-consistent sequences: identical output)
+                kws = ", ".join(f"{k.arg}={txt(k.value)}" for k in call.keywords)
+                o.holds(fn, call, f"grouper(.., {kws}) differs from the plain call only on a short last group, which a handshake-consistent sequence never produces")
             a0, a1 = call.args
             if txt(a0) == elem:
                 o.holds(fn, call, f"grouper({elem}, ...) chunks the whole stub list")
